@@ -1316,3 +1316,219 @@ func (n *Net) RecipePolkaBeforeOwnPrevote() string {
 	_, pending := n.Nodes[victim].Ticker.Pending()
 	return fmt.Sprintf("done(victim-step=%v,victim-has-pending-timeout=%v)", rsv.Step, pending)
 }
+
+// deliverBelowPolka delivers to node x the in-flight votes of (typ, h, round): nil votes freely, votes for a
+// block only while that block stays at or below two thirds at x (x's own vote counted), optionally never from
+// faulty senders.  Returns whether x now has +2/3 of anything.
+func (n *Net) deliverBelowPolka(x int, vals *types.ValidatorSet, typ tmproto.SignedMsgType, h int64, round int32, noFaulty bool) bool {
+	total := vals.TotalVotingPower()
+	xpk, _ := n.Nodes[x].PV.GetPubKey()
+	_, xv := vals.GetByAddress(xpk.Address())
+	forB := int64(0)
+	if xv != nil {
+		forB = xv.VotingPower
+	}
+	n.DeliverWhere(4000, func(e *Envelope) bool {
+		v, ok := isVote(e, typ)
+		if !ok || v.Height != h || v.Round != round || e.To != x || (noFaulty && n.IsFaulty[e.From] && len(v.BlockID.Hash) != 0) {
+			return false
+		}
+		if len(v.BlockID.Hash) == 0 {
+			return true
+		}
+		_, val := vals.GetByAddress(v.ValidatorAddress)
+		if val == nil || (forB+val.VotingPower)*3 > total*2 {
+			return false
+		}
+		forB += val.VotingPower
+		return true
+	})
+	var vs *types.VoteSet
+	if typ == tmproto.PrevoteType {
+		vs = n.Nodes[x].CS.GetRoundState().Votes.Prevotes(round)
+	} else {
+		vs = n.Nodes[x].CS.GetRoundState().Votes.Precommits(round)
+	}
+	return vs != nil && vs.HasTwoThirdsAny()
+}
+
+// passRoundAllNil: every correct node is past its prevote in (h, round) without a lock of this round;
+// faulty validators precommit nil, all precommits are exchanged, the precommit-wait timeouts fire.
+func (n *Net) passRoundAllNil(vals *types.ValidatorSet, h int64, round int32) bool {
+	now := time.Now()
+	for _, g := range n.Faulty {
+		if n.ValIndex(vals, g) < 0 {
+			continue
+		}
+		vn := n.SignVote(vals, g, tmproto.PrecommitType, h, round, types.BlockID{}, now)
+		for _, i := range n.Order {
+			n.Send(g, i, &cs.VoteMessage{Vote: vn})
+		}
+	}
+	n.DeliverWhere(4000, func(e *Envelope) bool {
+		v, ok := isVote(e, tmproto.PrecommitType)
+		return ok && v.Height == h && v.Round == round
+	})
+	for _, i := range n.Order {
+		rs := n.Nodes[i].CS.GetRoundState()
+		if t, p := n.Nodes[i].Ticker.Pending(); p && rs.Height == h && rs.Round == round && t.Round == round && t.Step == cstypes.RoundStepPrecommitWait {
+			n.FireTimeout(i)
+		}
+	}
+	for _, i := range n.Order {
+		if rs := n.Nodes[i].CS.GetRoundState(); rs.Height != h || rs.Round != round+1 {
+			return false
+		}
+	}
+	return true
+}
+
+// RecipeStaleValidBlock: a correct node L first learns a valid block B (the polka of round r0 reaches it
+// only after it precommitted nil; nobody locks).  In round r0+1 a faulty proposer proposes another block
+// C; L sees the polka for C while C's block part is still missing, the part arrives before its prevote
+// timeout, L locks C.  The other correct nodes miss that polka.  From then on only L can bring C back
+// (as its valid block, when it is the proposer): the height must still be decided after synchrony.
+func (n *Net) RecipeStaleValidBlock() string {
+	if len(n.Order) < 3 || len(n.Faulty) == 0 {
+		return "n/a"
+	}
+	lo, hi := n.MinMaxHeight()
+	if lo != hi {
+		return "heights-differ"
+	}
+	h := hi
+	if !n.startRound(h) {
+		return "cannot-start-round"
+	}
+	L := n.Order[n.R.Intn(len(n.Order))]
+	r0 := n.Nodes[L].CS.GetRoundState().Round
+	for _, i := range n.Order {
+		rs := n.Nodes[i].CS.GetRoundState()
+		if rs.Round != r0 || rs.LockedBlock != nil || rs.ValidBlock != nil {
+			return "rounds-differ-or-locks"
+		}
+	}
+	vals := n.Nodes[L].CS.GetRoundState().Validators
+	p1 := n.ProposerAt(n.Nodes[L], r0+1)
+	if !n.IsFaulty[p1] {
+		return "next-proposer-not-faulty"
+	}
+	var others []int
+	for _, i := range n.Order {
+		if i != L {
+			others = append(others, i)
+		}
+	}
+	now := time.Now()
+	// ---- round r0: everybody gets B and prevotes it, nobody sees the polka in time
+	if p0 := n.ProposerAt(n.Nodes[L], r0); n.IsFaulty[p0] {
+		kb := n.ByzBlock(n.Nodes[L], p0, r0, 61, "")
+		if kb == nil {
+			return "byz-cannot-build"
+		}
+		msgs := n.ProposalMsgs(p0, kb, h, r0, -1)
+		for _, i := range n.Order {
+			n.Send(p0, i, msgs...)
+		}
+	}
+	n.DeliverWhere(3000, func(e *Envelope) bool { return isProposalOrPart(e) })
+	rsL := n.Nodes[L].CS.GetRoundState()
+	if rsL.ProposalBlock == nil {
+		return "no-proposal-block"
+	}
+	B := types.BlockID{Hash: rsL.ProposalBlock.Hash(), PartSetHeader: rsL.ProposalBlockParts.Header()}
+	for _, g := range n.Faulty {
+		if n.ValIndex(vals, g) < 0 {
+			continue
+		}
+		vn := n.SignVote(vals, g, tmproto.PrevoteType, h, r0, types.BlockID{}, now)
+		for _, i := range n.Order {
+			n.Send(g, i, &cs.VoteMessage{Vote: vn})
+		}
+	}
+	for _, i := range n.Order {
+		if !n.deliverBelowPolka(i, vals, tmproto.PrevoteType, h, r0, true) {
+			return "r0-no-two-thirds-any"
+		}
+	}
+	for _, i := range n.Order {
+		if t, p := n.Nodes[i].Ticker.Pending(); p && t.Round == r0 && t.Step == cstypes.RoundStepPrevoteWait {
+			n.FireTimeout(i)
+		}
+		if rs := n.Nodes[i].CS.GetRoundState(); rs.Step < cstypes.RoundStepPrecommit || rs.LockedBlock != nil {
+			return "r0-not-all-precommitted-nil"
+		}
+	}
+	// the rest of the round-r0 prevotes reaches L only: it now knows B as a valid block
+	n.DeliverWhere(4000, func(e *Envelope) bool {
+		v, ok := isVote(e, tmproto.PrevoteType)
+		return ok && v.Height == h && v.Round == r0 && e.To == L && !n.IsFaulty[e.From]
+	})
+	if rs := n.Nodes[L].CS.GetRoundState(); rs.ValidBlock == nil || rs.LockedBlock != nil {
+		return "L-has-no-valid-block"
+	}
+	if !n.passRoundAllNil(vals, h, r0) {
+		return "r0-not-passed"
+	}
+	// ---- round r0+1: the faulty proposer's block C; L gets the proposal but not the part
+	r1 := r0 + 1
+	if !n.startRound(h) {
+		return "cannot-start-r1"
+	}
+	kb := n.ByzBlock(n.Nodes[others[0]], p1, r1, 63, "")
+	if kb == nil || string(kb.BlockID.Hash) == string(B.Hash) {
+		return "byz-cannot-build-C"
+	}
+	msgs := n.ProposalMsgs(p1, kb, h, r1, -1)
+	for _, i := range n.Order {
+		n.Send(p1, i, msgs...)
+	}
+	n.DeliverWhere(3000, func(e *Envelope) bool {
+		if _, ok := e.Msg.(*cs.ProposalMessage); ok {
+			return true
+		}
+		_, part := e.Msg.(*cs.BlockPartMessage)
+		return part && e.To != L
+	})
+	if rs := n.Nodes[L].CS.GetRoundState(); rs.Step == cstypes.RoundStepPropose {
+		n.FireTimeout(L) // no block: prevote nil
+	}
+	for _, g := range n.Faulty {
+		if n.ValIndex(vals, g) < 0 {
+			continue
+		}
+		vc := n.SignVote(vals, g, tmproto.PrevoteType, h, r1, kb.BlockID, now)
+		n.Send(g, L, &cs.VoteMessage{Vote: vc})
+	}
+	// L sees every prevote (polka for C, block still missing); the others stay below a polka
+	n.DeliverWhere(4000, func(e *Envelope) bool {
+		v, ok := isVote(e, tmproto.PrevoteType)
+		return ok && v.Height == h && v.Round == r1 && e.To == L
+	})
+	if bid, ok := n.Nodes[L].CS.GetRoundState().Votes.Prevotes(r1).TwoThirdsMajority(); !ok || string(bid.Hash) != string(kb.BlockID.Hash) {
+		return "no-polka-for-C-at-L"
+	}
+	for _, o := range others {
+		if !n.deliverBelowPolka(o, vals, tmproto.PrevoteType, h, r1, true) {
+			return "r1-others-no-two-thirds-any"
+		}
+		if t, p := n.Nodes[o].Ticker.Pending(); p && t.Round == r1 && t.Step == cstypes.RoundStepPrevoteWait {
+			n.FireTimeout(o)
+		}
+		if rs := n.Nodes[o].CS.GetRoundState(); rs.LockedBlock != nil {
+			return "r1-other-locked"
+		}
+	}
+	// the missing part reaches L before its prevote-wait timeout
+	n.DeliverWhere(200, func(e *Envelope) bool { return isProposalOrPart(e) && e.To == L })
+	if t, p := n.Nodes[L].Ticker.Pending(); p && t.Round == r1 && t.Step == cstypes.RoundStepPrevoteWait {
+		n.FireTimeout(L)
+	}
+	rsL = n.Nodes[L].CS.GetRoundState()
+	if rsL.LockedBlock == nil || string(rsL.LockedBlock.Hash()) != string(kb.BlockID.Hash) {
+		return "L-did-not-lock-C"
+	}
+	validIsLocked := rsL.ValidBlock != nil && string(rsL.ValidBlock.Hash()) == string(kb.BlockID.Hash)
+	passed := n.passRoundAllNil(vals, h, r1)
+	return fmt.Sprintf("done(L-valid-block-is-its-locked-block=%v,round-passed=%v)", validIsLocked, passed)
+}
